@@ -117,7 +117,8 @@ IsHtml(f) == f.act \in {"append", "prepend", "replace"}
 InitStage(f) == IF IsHtml(f)
                 THEN [f |-> f, enter |-> f.path[1], leave |-> None, pos |-> 1, vbuf |-> FALSE, bufs |-> <<>>, last |-> <<>>, exec |-> FALSE]
                 ELSE [f |-> f, enter |-> None, leave |-> None, pos |-> 1, vbuf |-> FALSE, bufs |-> <<>>, last |-> <<>>, exec |-> FALSE]
-HasSel(f) == f.sel # "none"
+\* ("empty" is the empty selector string, the serialised form of "no selector")
+HasSel(f) == f.sel \notin {"none", "empty"}
 PLen(st) == Len(st.f.path)
 
 VEnter(st, data, val) ==
